@@ -15,6 +15,10 @@ RULE = ('complete table: every assignment of {absent,@,!,role:r} to the names '
         'carries a default rule of its own) x queried name in {x,y,default,zz} x roles in {{}, {r}} '
         'x do_raise off/on; case = one (rule set, configuration, route); '
         'non-trivial = rule set non-empty and a queried name undefined.')
+RULE += (
+         ' Plus `redefine`: the default rule redefined in place (update /'
+         ' assignment / removal) between two lookups of an unknown name,'
+         ' for 3 ways of naming the default.')
 ASSUMPTIONS = ['R-store reference model below, written from the property text',
                'policy file route uses YAML files on tmpfs; no policy.d']
 
@@ -75,7 +79,8 @@ def anchors():
 def plan(tier, seed):
     sets = list(itertools.product(BODIES, repeat=len(NAMES)))
     return [{'space': 'table', 'lo': lo, 'hi': hi, 'weight': hi - lo}
-            for lo, hi in core.chunks(len(sets), 16)]
+            for lo, hi in core.chunks(len(sets), 16)] + \
+        [{'space': 'redefine', 'weight': 5}]
 
 
 def build(P, parse_rule, ruleset, cfg, route, w):
@@ -122,9 +127,63 @@ def build(P, parse_rule, ruleset, cfg, route, w):
     return enf
 
 
+def run_redefine(acc, P, parse_rule):
+    """The default rule is redefined IN PLACE between two lookups of an
+    unknown name (set_rules(overwrite=False), item assignment, removal): the
+    second lookup follows the definition as it now stands."""
+    for how_cfg in ('ctor', 'option', 'unset'):
+        dname = {'ctor': 'y', 'option': 'y', 'unset': 'default'}[how_cfg]
+        for b1, b2, how in itertools.product(BODIES[1:], BODIES, (
+                'update', 'assign')):
+            kw, over = {}, {}
+            if how_cfg == 'ctor':
+                kw['default_rule'] = dname
+            elif how_cfg == 'option':
+                over['policy_default_rule'] = dname
+            conf = world.new_conf(**over)
+            enf = P.Enforcer(conf, use_conf=False, **kw)
+            cur = {dname: b1, 'x': '!'}
+            enf.set_rules(P.Rules.from_dict(cur), use_conf=False)
+            acc.case('redefine', True)
+            for step in (0, 1):
+                if step:
+                    if b2 is None:
+                        enf.rules.pop(dname, None)
+                        cur.pop(dname)
+                    elif how == 'update':
+                        enf.set_rules(P.Rules.from_dict({dname: b2}),
+                                      overwrite=False, use_conf=False)
+                        cur[dname] = b2
+                    else:
+                        enf.rules[dname] = parse_rule(b2)
+                        cur[dname] = b2
+                for q in ('zz', 'x', dname):
+                    for roles in ((), ('r',)):
+                        exp = ref_decide(cur, ('ctor-name', dname), q,
+                                         set(roles))
+                        acc.ev()
+                        got = world.decide(enf, q, {}, {'roles': list(roles)})
+                        if got != ('ok', exp):
+                            acc.violation(
+                                'redefine|%s|%s|%s' % (how_cfg, how, 'allows'
+                                                       if got == ('ok', True)
+                                                       else 'denies'),
+                                'after the default rule %r was redefined in '
+                                'place from %r to %r, enforce(%r) gives %r, '
+                                'expected %r' % (dname, b1, b2, q, got, exp),
+                                {'rules': cur, 'config': [how_cfg, dname],
+                                 'route': 'redefine', 'query': q,
+                                 'roles': list(roles)}, exp, got, 'redefine')
+                        acc.outcome('redefine-%s' % exp)
+    acc.sample('redefine', {'default': 'y', 'from': '@', 'to': '!'})
+    return acc.result()
+
+
 def run(job, seed):
     from oslo_policy import _parser, policy as P
     acc = core.Acc()
+    if job['space'] == 'redefine':
+        return run_redefine(acc, P, _parser.parse_rule)
     sets = list(itertools.product(BODIES, repeat=len(NAMES)))
     for bodies in sets[job['lo']:job['hi']]:
         ruleset = {n: b for n, b in zip(NAMES, bodies) if b is not None}
